@@ -310,7 +310,7 @@ def run(ctx):
         cases.append({"id": n, "key": k, "ext": b["ext"], "file": str(f), "usize": b["usize"], "len": len(b["data"]),
                       "markers": markers, "heavy": heavy, "cpu": (30 if ctx.thorough else 12) if heavy else 30})
     ctx.log(f"t={time.time()-T0:.0f}s files built")
-    cjobs = [{"cases": part, "wall": 150} for part in _split(cases, 10, lambda c: c["cpu"] if c["heavy"] else 1)]
+    cjobs = [{"cases": part, "wall": 600} for part in _split(cases, 10, lambda c: c["cpu"] if c["heavy"] else 1)]
     ctx.log(f"part (a): {len(wscn)} scenarios in {len(ljobs)} workers; part (b): {len(cases)} hostile files "
             f"({sum(c['heavy'] for c in cases)} expected to exceed, {skipped_either} undecidable cases skipped) "
             f"in {len(cjobs)} workers")
@@ -352,6 +352,10 @@ def run(ctx):
     for r in sorted(cres, key=lambda r: r["id"]):
         c = cases[r["id"]]
         s = ref_final[c["key"]]["scn"]
+        if r["outcome"] in ("Killed:WallTimeout", "Killed:NoReport", "ChildError"):
+            # the CPU budget ends every runaway extraction; a child that is still there after the wall timeout was
+            # starved or blocked: that says nothing about the library
+            raise MachineryError(f"sandboxed extraction of {c['key']} did not report ({r['outcome']}): {r.get('err', '')}")
         skib = max(1, math.ceil(c["usize"] / 1024))
         peak = r.get("peak")
         e = {"a": "Cost", "peak": min(2 ** 31 - 1, math.ceil(peak / 1024)) if peak is not None else 0,
